@@ -37,9 +37,13 @@ def main():
     print('tests with change:', out.strip().splitlines()[-1] if out.strip() else rc)
     # 2. demo with and without
     rc_with, out_with = sh('/venv/bin/python demo.py', cwd=wt, env=env)
-    sh('git stash', cwd=wt)
-    rc_without, out_without = sh('/venv/bin/python demo.py', cwd=wt, env=env)
-    sh('git stash pop', cwd=wt)
+    # the original code: a pristine export of HEAD (git stash is shared between worktrees, so it is not used)
+    import tempfile
+    tmp = tempfile.mkdtemp(prefix='seed_orig_')
+    sh('git archive HEAD fxpmath | tar -x -C %s' % tmp, cwd=wt)
+    shutil.copy(os.path.join(wt, 'demo.py'), os.path.join(tmp, 'demo.py'))
+    rc_without, out_without = sh('/venv/bin/python demo.py', cwd=tmp, env=dict(os.environ, PYTHONPATH=tmp))
+    shutil.rmtree(tmp, ignore_errors=True)
     print('demo with change: exit', rc_with, '| without: exit', rc_without)
     confirmed = tests_ok and rc_with != 0 and rc_without == 0
     # 3. our checks
@@ -62,7 +66,7 @@ def main():
         note = open(os.path.join(wt, 'NOTE.md')).read() if os.path.exists(os.path.join(wt, 'NOTE.md')) else ''
         meta = {'breaks_property': a.prop, 'needs_to_manifest': a.needs or note.strip(), 'author': 'independent sub-agent given only the property text and a scratch worktree',
                 'confirmed': {'baseline_tests_pass_with_change': tests_ok, 'demo_exit_with_change': rc_with, 'demo_exit_without_change': rc_without},
-                'ran': ['sh tools/repo_tests.sh (FXP_REPO=worktree)', 'python demo.py with and without the change (git stash)',
+                'ran': ['sh tools/repo_tests.sh (FXP_REPO=worktree)', 'python demo.py with the change and against a pristine export of HEAD',
                         './check <P> --tier %s with FXP_REPO=<worktree carrying patch.diff>' % a.tier],
                 'check_results': results,
                 'detected_by': [p for p, r in results.items() if r['exit'] == 1 and r['violations'] > 0]}
